@@ -18,6 +18,8 @@ from typing import Any, Callable, Iterable
 ROOT = os.path.dirname(os.path.dirname(os.path.abspath(__file__)))
 REPO = os.environ.get("VERIF_REPO", "/repo")
 NPROC = int(os.environ.get("VERIF_PROCS", "16"))
+# runs against a scratch copy of the repository (sensitivity audit) must not touch the committed evidence
+OUT = ROOT if os.path.realpath(REPO) == "/repo" else os.path.join(ROOT, "scratch", "out")
 DISTINCT_CAP = 3_000_000
 
 
@@ -343,8 +345,8 @@ def write_evidence(ctx: Ctx, level: str, rule: str, assumptions: list[str], exha
         "property_id": ctx.pid, "tier": ctx.tier, "seed": ctx.seed, "level": level, "coverage": cov,
         "assumptions": assumptions, "wall_s": round(ctx.elapsed(), 3), "violations": unlisted_violations,
     }
-    os.makedirs(os.path.join(ROOT, "evidence"), exist_ok=True)
-    path = os.path.join(ROOT, "evidence", f"{ctx.pid}.json")
+    os.makedirs(os.path.join(OUT, "evidence"), exist_ok=True)
+    path = os.path.join(OUT, "evidence", f"{ctx.pid}.json")
     tmp = path + ".tmp"
     with open(tmp, "w") as f:
         json.dump(ev, f, indent=1, sort_keys=True, default=repr)
@@ -354,7 +356,7 @@ def write_evidence(ctx: Ctx, level: str, rule: str, assumptions: list[str], exha
 
 
 def write_replay(pid: str, rec: dict) -> str:
-    d = os.path.join(ROOT, "replays", pid)
+    d = os.path.join(OUT, "replays", pid)
     os.makedirs(d, exist_ok=True)
     name = "%s_%016x.json" % (rec["clause"], digest((rec["clause"], rec["site"])))
     path = os.path.join(d, name)
